@@ -1,6 +1,7 @@
 """C19 — nesting depth is bounded exactly at LOKY_MAX_DEPTH."""
 from ..ech import H
 
+ENGINE = "E-SYM+E-CH"
 LEVEL = "other"
 EXPLANATION = (
     "E-SYM: _check_max_depth translated from the AST and decided path-complete over unbounded integers "
